@@ -190,6 +190,47 @@ fn file_case(kind: &str, dir: &std::path::Path) -> Result<String, String> {
                 _ => Ok("not-applicable-here".into()),
             }
         }
+        k if k.starts_with("fifo:") => {
+            // a named pipe: metadata size 0, delivers `len` > 0 bytes: must be an error, never a hash
+            use std::io::Read;
+            use std::os::unix::fs::OpenOptionsExt;
+            let len: usize = k[5..].parse().map_err(|_| "len")?;
+            let p = dir.join(format!("fifo-{}-{}", len, std::process::id()));
+            let _ = std::fs::remove_file(&p);
+            let made = std::process::Command::new("mkfifo").arg(&p).status().map(|s| s.success()).unwrap_or(false);
+            if !made {
+                return Ok("not-applicable-here".into());
+            }
+            let data = payload(len);
+            let p2 = p.clone();
+            // the writer blocks in open() until somebody opens the pipe for reading
+            let w = std::thread::spawn(move || {
+                use std::io::Write;
+                if let Ok(mut f) = std::fs::OpenOptions::new().write(true).open(&p2) {
+                    let _ = f.write_all(&data);
+                }
+            });
+            let got = r(&p);
+            // release the writer whatever hash_file did (it may not have opened the pipe at all): a non-blocking
+            // reader unblocks its open(); drain until it is done
+            if let Ok(mut f) = std::fs::OpenOptions::new().read(true).custom_flags(0x800 /* O_NONBLOCK */).open(&p) {
+                let mut buf = [0u8; 65536];
+                let t0 = std::time::Instant::now();
+                while !w.is_finished() && t0.elapsed().as_secs() < 20 {
+                    let _ = f.read(&mut buf);
+                    std::thread::sleep(std::time::Duration::from_millis(1));
+                }
+            }
+            if w.is_finished() {
+                let _ = w.join();
+            }
+            let _ = std::fs::remove_file(&p);
+            let got = got?;
+            if !got.starts_with("Err(") {
+                return Err(format!("a named pipe (metadata size 0) delivering {} bytes gives {}", len, got));
+            }
+            Ok("size-mismatch-error".into())
+        }
         k if k.starts_with("file:") => {
             let len: usize = k[5..].parse().map_err(|_| "len")?;
             let data = payload(len);
@@ -340,6 +381,9 @@ pub fn run(ctx: &Ctx) -> Report {
     for &l in &lens {
         files.push(format!("file:{}", l));
     }
+    for l in [1usize, 100, 32768, 70000] {
+        files.push(format!("fifo:{}", l));
+    }
     let mut acc = Acc::default();
     for f in &files {
         acc.evaluations += 1;
@@ -354,7 +398,7 @@ pub fn run(ctx: &Ctx) -> Report {
     rep.set("exhaustive", true);
     rep.set(
         "rule",
-        "payloads of length {0,1,100,32767,32768,32769,70000} (trigger-word content) x read policies {fill, 1, 7, 4096, 32768 bytes per read} x every script with <= 2 deviations over the read calls (deviation = a short read of {1,6,7,4095,32767} bytes or a failure with kind {Other, UnexpectedEof, Interrupted, WouldBlock, PermissionDenied, TimedOut}); a failure must come back as that I/O error and no hash, short reads must give the hash of the delivered bytes; through hook H2 with declared size {len-1,len,len+1,0}: Ok iff the declared size equals the delivered bytes, faults still win; real files: regular files of each length, missing path, directory, procfs entries whose metadata size disagrees with their content, /dev/null.  A case is one (payload, policy, script, declared) execution; non-trivial = at least one deviation.",
+        "payloads of length {0,1,100,32767,32768,32769,70000} (trigger-word content) x read policies {fill, 1, 7, 4096, 32768 bytes per read} x every script with <= 2 deviations over the read calls (deviation = a short read of {1,6,7,4095,32767} bytes or a failure with kind {Other, UnexpectedEof, Interrupted, WouldBlock, PermissionDenied, TimedOut}); a failure must come back as that I/O error and no hash, short reads must give the hash of the delivered bytes; through hook H2 with declared size {len-1,len,len+1,0}: Ok iff the declared size equals the delivered bytes, faults still win; real files: regular files of each length, missing path, directory, procfs entries whose metadata size disagrees with their content, named pipes (metadata size 0) delivering {1,100,32768,70000} bytes from a writer thread, /dev/null.  A case is one (payload, policy, script, declared) execution; non-trivial = at least one deviation.",
     );
     rep.assume("std::io::Read semantics: Ok(0) is end of stream; the reader loop uses a 32 KiB buffer (the model replays the script against that size)");
     rep
